@@ -18,6 +18,24 @@ def cases(ctx):
     for name, doc in fx:
         for st in (settings if ctx.tier == "thorough" else settings[:2]):
             out.append(("fixture:" + name, {"settings": st, "calls": [{"root": doc}]}))
+    # the keyword lattice of constrained strings (each of minLength / maxLength / pattern absent, zero-ish, ordinary) and the
+    # other constructs that get a hand-written Deserialize or a bespoke derive set: one definition each, plus a holder struct
+    lat = {}
+    for mn in (None, 0, 1):
+        for mx in (None, 0, 3):
+            for pat in (None, "", "^[a-z]*$"):
+                s_ = {"type": "string"}
+                if mn is not None: s_["minLength"] = mn
+                if mx is not None: s_["maxLength"] = mx
+                if pat is not None: s_["pattern"] = pat
+                lat["S%s%s%s" % ("x" if mn is None else mn, "x" if mx is None else mx, {None: "x", "": "e", "^[a-z]*$": "p"}[pat])] = s_
+    lat.update({"DenyS": {"type": "string", "not": {"enum": ["x"]}}, "EnumI": {"type": "integer", "enum": [1, 2]}, "EnumS": {"type": "string", "enum": ["a"]},
+                "EnumF": {"type": "number", "enum": [1.5]}, "Fl": {"type": "number"}, "FlS": {"type": "object", "properties": {"f": {"type": "number"}}},
+                "FlE": {"oneOf": [{"type": "object", "properties": {"A": {"type": "number"}}, "required": ["A"], "additionalProperties": False},
+                                  {"type": "string", "enum": ["B"]}]}})
+    holder = {"title": "Holder", "type": "object", "properties": {k.lower(): {"$ref": "#/definitions/" + k} for k in lat}, "definitions": lat}
+    for st in settings[:2] + [{"derives": ["::altser::Serialize", "::altser::Deserialize", "Eq"]}, {"derives": ["::std::hash::Hash", "::std::fmt::Debug"]}]:
+        out.append(("lattice", {"settings": st, "calls": [{"root": holder}]}))
     n = 400 if ctx.tier == "thorough" else 60
     for k in range(n):
         feats = set(gen.DEFAULT_FEATURES)
